@@ -1108,7 +1108,7 @@ fn gen_sql(rng: &mut Rng, n_ops: usize, plan: &Plan) -> (String, Vec<String>) {
 
 impl Engine for PagerEngine {
     fn timeout_ms(&self) -> u64 {
-        30_000
+        60_000
     }
 
     fn exec(&mut self, line: &str) -> String {
